@@ -238,7 +238,7 @@ def to_model_ops(comps, executed):
             ops.append(["map", n, e[2], pid(e[2], e[3])]); idx.append(k)
         elif kind == "invalid":
             sub = e[1]
-            if sub == "first-connected":
+            if sub in ("first-connected", "both-connected"):
                 ops.append(["connect", e[2], pid(e[2], e[3]), e[4], pid(e[4], e[5])]); idx.append(k)
             elif sub == "second-connected":
                 ops.append(["connect", e[4], pid(e[4], e[5]), e[2], pid(e[2], e[3])]); idx.append(k)
